@@ -137,22 +137,67 @@ func expectFor(c compiled) Expect {
 	return e
 }
 
-// TestCalibrationCorpus runs Check over naga's DXIL output for the corpus.
-// Default: every shader at SM 6.0 retail hash. DXBC_CALIB=full: SM 6.0/6.2/6.6 x both hash modes.
+// knownCorpusFindings: "shader:entry rule" pairs that are genuine deviations in
+// naga's output on the pinned tree (triaged; bitcode-level ones confirmed with
+// llvm-dis / opt -verify). Anything else is a regression of the checker or a
+// new naga defect and fails the test.
+var knownCorpusFindings = map[string]bool{
+	"access:foo_compute func.type-check":                             true, // nested struct flattened, member GEP typed {i32}
+	"atomicOps:cs_main func.enum":                                    true, // atomicrmw ordering code 7
+	"atomicOps-int64:cs_main func.enum":                              true,
+	"atomics:main func.enum":                                         true,
+	"barycentrics:fs_main psv.layout":                                true, // PSV0 counts 2 sig elements, stores 1
+	"binding-arrays:main dxmeta.resource-overlap":                    true, // default binding map: unbounded array overlaps
+	"bounds-check-restrict:main func.type-check":                     true, // store through dx.types.Handle (m[i][j] = v)
+	"bounds-check-zero:main func.type-check":                         true,
+	"debug-symbol-large-source:gen_terrain_fragment func.ssa":        true, // switch phi names the wrong values
+	"debug-symbol-large-source:gen_terrain_fragment func.type-check": true,
+	"debug-symbol-terrain:gen_terrain_fragment func.ssa":             true,
+	"debug-symbol-terrain:gen_terrain_fragment func.type-check":      true,
+	"f16:main func.record":                                           true, // forward-referenced cast operand without type
+	"f16:main func.type-check":                                       true, // half/float/i32 mix-ups, bitcast half->i32
+	"hlsl_mat_cx2:main func.type-check":                              true, // load/GEP/store through dx.types.Handle
+	"hlsl_mat_cx3:main func.type-check":                              true,
+	"int64:main func.type-check":                                     true, // i32/i64 mix-ups, extractvalue index out of range
+	"int64:main module.const-range":                                  true, // 64-bit literal under SETTYPE i32
+	"mesh-shader:ms_main psv.layout":                                 true, // mesh: primitive sig elements counted, not stored
+	"mesh-shader-lines:ms_main psv.layout":                           true,
+	"mesh-shader-points:ms_main psv.layout":                          true,
+	"msl-vpt-formats-x1:render_vertex psv.sig-elements":              true, // > 32 vertex inputs: rows/registers >= 32
+	"msl-vpt-formats-x1:render_vertex sig.element":                   true,
+	"msl-vpt-formats-x2:render_vertex psv.sig-elements":              true,
+	"msl-vpt-formats-x2:render_vertex sig.element":                   true,
+	"msl-vpt-formats-x3:render_vertex psv.sig-elements":              true,
+	"msl-vpt-formats-x3:render_vertex sig.element":                   true,
+	"msl-vpt-formats-x4:render_vertex psv.sig-elements":              true,
+	"msl-vpt-formats-x4:render_vertex sig.element":                   true,
+}
+
+// TestCalibrationCorpus runs Check over naga's DXIL output for every corpus
+// entry point. Default: SM 6.0 retail hash + SM 6.6 bypass hash;
+// DXBC_CALIB=full: SM 6.0/6.2/6.6 x both hash modes (1386 containers).
 func TestCalibrationCorpus(t *testing.T) {
-	sms := []dxil.ShaderModel{dxil.SM6_0}
-	modes := []bool{false}
-	if os.Getenv("DXBC_CALIB") == "full" {
-		sms = []dxil.ShaderModel{dxil.SM6_0, dxil.SM6_2, dxil.SM6_6}
-		modes = []bool{false, true}
+	type cfg struct {
+		sm     dxil.ShaderModel
+		bypass bool
 	}
+	cfgs := []cfg{{dxil.SM6_0, false}, {dxil.SM6_6, true}}
+	if os.Getenv("DXBC_CALIB") == "full" {
+		cfgs = nil
+		for _, sm := range []dxil.ShaderModel{dxil.SM6_0, dxil.SM6_2, dxil.SM6_6} {
+			cfgs = append(cfgs, cfg{sm, false}, cfg{sm, true})
+		}
+	}
+	unexpected := map[string]string{}
+	seenKnown := map[string]bool{}
 	only := os.Getenv("DXBC_CALIB_ONLY")
 	byRule := map[string][]string{}
 	fired := map[string]int{}
 	unsup := map[string]int{}
 	nfind := 0
 	withFindings := 0
-	st := compileCorpus(t, func(i int, name string) bool { return only == "" || name == only }, sms, modes, func(c compiled) {
+	var st calibStats
+	each := func(c compiled) {
 		rep := Check(c.blob, expectFor(c))
 		for k, v := range rep.Fired {
 			fired[k] += v
@@ -165,19 +210,34 @@ func TestCalibrationCorpus(t *testing.T) {
 		}
 		for _, f := range rep.Findings {
 			nfind++
+			key := c.shader + ":" + c.entry + " " + f.Rule
+			if knownCorpusFindings[key] {
+				seenKnown[key] = true
+			} else if _, dup := unexpected[key]; !dup {
+				unexpected[key] = f.Detail
+			}
 			byRule[f.Rule] = append(byRule[f.Rule], fmt.Sprintf("%s:%s SM%d.%d bypass=%v: %s", c.shader, c.entry, c.sm.Major, c.sm.Minor, c.bypass, f.Detail))
 		}
 		if dir := os.Getenv("DXBC_CALIB_DUMP"); dir != "" && only != "" {
 			_ = os.WriteFile(filepath.Join(dir, fmt.Sprintf("%s_%s_%d%d.dxbc", c.shader, c.entry, c.sm.Major, c.sm.Minor)), c.blob, 0o644)
 		}
-	})
+	}
+	for i, cf := range cfgs {
+		s1 := compileCorpus(t, func(i int, name string) bool { return only == "" || name == only }, []dxil.ShaderModel{cf.sm}, []bool{cf.bypass}, each)
+		if i == 0 {
+			st.files, st.lowerErr = s1.files, s1.lowerErr
+		}
+		st.compileErr += s1.compileErr
+		st.panics += s1.panics
+		st.containers += s1.containers
+	}
 	t.Logf("files=%d lowerErr=%d compileErr=%d panics=%d containers=%d findings=%d containersWithFindings=%d", st.files, st.lowerErr, st.compileErr, st.panics, st.containers, nfind, withFindings)
 	var rules []string
 	for r := range byRule {
 		rules = append(rules, r)
 	}
 	sort.Strings(rules)
-	maxEx := 6
+	maxEx := 2
 	if os.Getenv("DXBC_CALIB_VERBOSE") != "" {
 		maxEx = 1 << 30
 	}
@@ -203,6 +263,17 @@ func TestCalibrationCorpus(t *testing.T) {
 	if st.containers == 0 {
 		t.Fatalf("no containers produced")
 	}
+	for k, d := range unexpected {
+		t.Errorf("unexpected finding %s: %s", k, d)
+	}
+	if only == "" {
+		for k := range knownCorpusFindings {
+			if !seenKnown[k] {
+				t.Logf("known finding no longer reproduces: %s", k)
+			}
+		}
+	}
+	t.Logf("distinct (entry point, rule) findings: %d known, %d unexpected", len(seenKnown), len(unexpected))
 	if n := len(byRule["internal.panic"]); n > 0 {
 		t.Errorf("checker panicked %d times", n)
 	}
